@@ -28,7 +28,13 @@ static tp_udata_t g_timer_ud, g_pipe_ud;
 static int g_pipe[2];
 
 static void hook_start(tpt_p tpt) { tp_log(R_HOOK_START, (uint64_t)(uintptr_t)tpt, tpt_get_num(tpt), 0, 0); }
-static void hook_stop(tpt_p tpt) { tp_log(R_HOOK_STOP, (uint64_t)(uintptr_t)tpt, tpt_get_num(tpt), 0, 0); }
+static void
+hook_stop(tpt_p tpt) {
+	/* a stop hook that takes a while before it is seen: whoever waits for this thread must really wait for it */
+	if (NULL != g_scn && 0 != g_scn->slow_stop && (size_t)(g_scn->slow_stop - 1) == tpt_get_num(tpt))
+		usleep(1500);
+	tp_log(R_HOOK_STOP, (uint64_t)(uintptr_t)tpt, tpt_get_num(tpt), 0, 0);
+}
 
 static void
 msg_cb(tpt_p tpt, void *udata) {
